@@ -7,7 +7,7 @@ VARIABLES grp, gset, periodic, NKdiv, NKFFT, NK, rec, res, ambiguous
 vars == <<grp, gset, periodic, NKdiv, NKFFT, NK, rec, res, ambiguous>>
 (* cfg files cannot hold tuples: the model's vector sets are chosen by  VECTORS <- VecsA  etc. *)
 VecsA == {<<4, 4, 1>>, <<4, 2, 2>>, <<2, 4, 2>>, <<6, 3, 1>>, <<3, 3, 2>>, <<5, 5, 3>>}
-VecsB == VecsA \cup {<<8, 8, 1>>, <<2, 2, 4>>, <<6, 6, 4>>, <<7, 7, 2>>, <<12, 12, 1>>, <<9, 9, 9>>}
+VecsB == VecsA \cup {<<8, 8, 1>>, <<6, 6, 4>>, <<12, 12, 1>>, <<9, 9, 9>>}
 VecsQ == {<<4, 4, 1>>, <<4, 2, 2>>, <<6, 3, 1>>, <<5, 5, 2>>}
 RecsQ == {<<1, 1, 1>>, <<2, 2, 1>>, <<3, 3, 3>>}
 RecsA == {<<1, 1, 1>>, <<2, 2, 1>>, <<3, 3, 3>>, <<3, 1, 1>>, <<1, 2, 3>>}
